@@ -1,9 +1,9 @@
 (* Extraction of the executable models and spec oracles for the correspondence driver.
    ExtrOcamlBasic only: nat, positive, N, Z stay the extracted inductive types; no Extract Constant of ours. *)
-From BG Require Import Base DirectedModel DirectedSpec UndirectedModel UndirectedSpec MultiModel WeightedModel MultiSpec ForcedSpec ConvModel TopologyModel PathsModel PathsCases IOModel IOCases Instances ConcModel ConcCases FloatTotal FloatCases.
+From BG Require Import Base DirectedModel DirectedSpec UndirectedModel UndirectedSpec MultiModel WeightedModel MultiSpec ForcedSpec ConvModel TopologyModel PathsModel PathsCases IOModel IOCases Instances CodesSpec ConcModel ConcCases FloatTotal FloatCases.
 From Coq Require Extraction ExtrOcamlBasic.
 Extraction Language OCaml.
-Extraction "model.ml" pinned repaired d_trace d_spec_trace u_trace_z u_spec_trace dm_trace_z um_trace_z dw_trace_z uw_trace_z m_spec_trace w_spec_trace d_fspec_trace u_fspec_trace m_fspec_trace w_fspec_trace
+Extraction "model.ml" pinned repaired d_trace d_spec_trace u_trace_z u_spec_trace dm_trace_z um_trace_z dw_trace_z uw_trace_z m_spec_trace w_spec_trace d_fspec_trace u_fspec_trace m_fspec_trace w_fspec_trace d_cspec_trace u_cspec_trace
   d_eq_case d_eq_spec u_eq_case u_eq_spec dm_eq_case um_eq_case dw_eq_case uw_eq_case m_eq_spec w_eq_spec
   d_cv_case d_cv_spec u_cv_case u_cv_spec d_el_case u_el_case dm_el_case um_el_case dw_el_case uw_el_case d_el_spec u_el_spec m_el_spec w_el_spec
   d_sub_case u_sub_case d_sub_spec u_sub_spec
